@@ -387,6 +387,19 @@ func partC06(a *hcli.Args, rep *report.Report, univName string, u *schema.Univer
 				} else {
 					s.Class("ok:json-null")
 				}
+				// the untyped tree's nil is the same null
+				kind, detail = checkRequired(rich, nil, del, "untyped", variants[0])
+				s.Evaluations++
+				s.Transitions++
+				s.Traces++
+				if kind != "" {
+					rep.Fail(fmt.Sprintf("%s req untyped-null %s %s nulled=%s", a.Gen, kind, w.Name, sigPositions(del)),
+						fmt.Sprintf("type %s nulled %v: %s", w.Name, names, detail),
+						reqReplay{Gen: a.Gen, Part: "C06", Univ: univName, Wrapper: w.Name, Nulled: names, Reader: "untyped", Variant: "canonical"})
+					s.Class("fail:null:" + kind)
+				} else {
+					s.Class("ok:untyped-null")
+				}
 			}
 		})
 		// malformed leaves: the error must carry the leaf's path
